@@ -329,6 +329,9 @@ def const_pure(progs):
                                        ' (%s -> %s)' % (n.get('from'), n.get('t')), where=f['pname'], unit=prog.uname))
             # (2) stores: the type system protects fields of a const object, not what its pointer members point to
             for st, lhs in A.stores(body):
+                l0 = A.strip(lhs)
+                if isinstance(l0, dict) and l0.get('k') == 'ref' and l0.get('dk') == 'local':
+                    continue      # the local variable itself is written (e.g. ++current), nothing it points to
                 kind, r = A.root(lhs, linit)
                 if kind == 'global':
                     rr.add(Finding('CONST-PURE', '%s|store-global|%s' % (f['key'], r.get('name')), prog.site(f, st),
